@@ -68,6 +68,9 @@ func (i Info) TokenReader() xml.TokenReader {
 	for _, ident := range i.Identity {
 		payloads = append(payloads, ident.TokenReader())
 	}
+	for n := range i.Form {
+		payloads = append(payloads, i.Form[n].TokenReader())
+	}
 	return i.InfoQuery.wrap(xmlstream.MultiReader(payloads...))
 }
 
